@@ -21,7 +21,7 @@ ASSUMPTIONS = ["per box, pixels where the level holds only one of the two bracke
 REQUIRED_OBS = {"plotfiles_written": 100, "boxes_checked": 300, "pixels_decided": 5000,
                 "splitting_cases": 1, "multi_level": 20, "cli_runs": 10}
 TIMEOUT = {"quick": 600, "thorough": 3000}
-NAMES = ["ax", "ay", "az", "tagx", "tagy", "tagz", "rnd", "near"]
+NAMES = ["ax", "ay", "az", "tagx", "tagy", "tagz", "rnd", "near", "cix", "ciy", "ciz"]
 
 
 def cases(tier, seed):
@@ -107,11 +107,11 @@ def judge(out, m, vol, n, pos, L, fl):
         for c, v, b in planes:
             allc &= c
         if len(br) == 1:
-            val = planes[0][1]
+            val = slicemodel.single_sample(vol, lv, n, pos, br[0][0], 1)
         else:
             (k0, c0), (k1, c1) = br
             w1 = (pos - c0) / (c1 - c0)
-            val = planes[0][1] * (1.0 - w1) + planes[1][1] * w1
+            val = slicemodel.interp(planes[0][1], planes[1][1], w1)
         for ob, ((lo, hi), d) in enumerate(zip(lev["idx"], lev["data"])):
             nb += 1
             if d["hlo"] != lo or d["hhi"] != hi:
@@ -124,8 +124,8 @@ def judge(out, m, vol, n, pos, L, fl):
             for ci, nm in enumerate(want):
                 a = arr[..., ci]
                 e = val[sl][..., names.index(nm)]
-                scale = max(1.0, float(np.nanmax(np.abs(e[dec]))) if dec.any() else 1.0)
-                bad = dec & ~(np.abs(a - e) <= 1e-9 * scale)
+                scale = slicemodel.scale_of(e[dec])
+                bad = dec & slicemodel.differs(a, e, 1e-9 * scale)
                 if bad.any():
                     i, j = np.argwhere(bad)[0]
                     probs.append(f"level {lv} box {lo}..{hi} field {nm}: {int(bad.sum())} pixels are not the level's own "
@@ -251,7 +251,8 @@ def run_case(case, work, rec):
                 plist = slicemodel.positions(m, L, n, rng, 2)
                 rng.shuffle(plist)
                 for cp in plist[:case["npos"]]:
-                    fl = rng.choice([list(NAMES), ["a" + "xyz"[n], "tag" + "xyz"[n], "rnd"], ["rnd"], ["tagx", "ay"], ["near", "az"]])
+                    fl = rng.choice([list(NAMES), ["a" + "xyz"[n], "tag" + "xyz"[n], "rnd"], ["rnd"], ["tagx", "ay"], ["near", "az"],
+                                     ["ci" + "xyz"[n], "rnd"], ["ci" + "xyz"[n]]])
                     jobs.append((n, cp, limit, fl))
     for n, (cls, pos), limit, fl in jobs:
         L = finest if limit is None else limit
